@@ -178,6 +178,14 @@ Fixpoint is_push_only_fuel (fuel : nat) (pc : bytes) : bool :=
   end.
 Definition is_push_only (s : bytes) : bool := is_push_only_fuel (S (length s)) s.
 
+(* BIP141 / BIP342 limits on the initial witness stack, checked when the session is set up: Some error, or None *)
+Definition witness_limits_violation (sigver : Z) (stack : list bytes) : option Z :=
+  if (sigver =? SV_WITNESS_V0) || (sigver =? SV_TAPSCRIPT) then
+    if existsb (fun it => MAX_SCRIPT_ELEMENT_SIZE <? zlen it) stack then Some SCRIPT_ERR_PUSH_SIZE
+    else if (sigver =? SV_TAPSCRIPT) && (MAX_STACK_SIZE <? Z.of_nat (length stack)) then Some SCRIPT_ERR_STACK_SIZE
+    else None
+  else None.
+
 Definition pushonly_violation (flags : Z) (script succ : bytes) : bool :=
   (match succ with [] => false | _ => true end) && negb (is_push_only script)
   && (has_flag flags SCRIPT_VERIFY_SIGPUSHONLY || (has_flag flags SCRIPT_VERIFY_P2SH && is_p2sh_script succ)).
